@@ -11,27 +11,36 @@ Metamorphic check: the oracle is the real library applied to a sub-problem.
                constraint object or as the layer's variable constraint.
   U (units)    replacing unit v's parameters (kernel column, learned-interior
                logits row, missing output, bias, KFL scale row / kernel block)
-               and then unit v's inputs leaves the outputs of all other units
-               unchanged.
+               and then unit v's inputs (another unit's inputs, or values far
+               outside the range / the missing value) leaves the outputs of
+               all other units unchanged.
   B (batch)    layer(x)[idx] == layer(x[idx]) for single rows (every row), a
                permutation of the batch and an ordered subset of it, for every
                layer kind, the functional forms (per-example parameters), RTL,
-               ParallelCombination and a premade CalibratedLattice model.
+               ParallelCombination, tfl.layers.Aggregation (ragged rows) and
+               the premade CalibratedLattice, CalibratedLinear and
+               CalibratedLatticeEnsemble models.
+
+Lattice and KroneckerFactoredLattice take their inputs (U and B) in every
+documented format: one tensor, a list of per-dimension tensors, extra leading
+dimensions (batch, ..., units, dims), or both.
 """
 import numpy as np
 from hypothesis import strategies as st
 
 from vlib import strategies as S
-from vlib.harness import Outcome, scale_of
+from vlib.harness import Outcome, hash32, scale_of
 
 ID = "C09"
 TITLE = "Units and examples never interact: projections are per-unit, outputs per-row"
 RULE = ("Each Hypothesis case picks one (layer kind, relation). Weight "
         "relations (unit-column for every unit, unit-perm, unit-subset) run on "
-        "Lattice (rank 1-3, <= 64 vertices quick; strict and non-strict, all "
+        "Lattice (rank 1-3 and a quota of 2x2x2x2, <= 64 vertices quick; "
+        "strict and non-strict, all "
         "constraint families, iterations {0,1,2,4}), PWLCalibration, Linear, "
         "CategoricalCalibration and the KroneckerFactoredLattice kernel and "
-        "scale constraints, units 2-4 (3-4 for subsets) with per-unit "
+        "scale constraints, units 2-4 (3-4 for subsets; a quota of 5) with "
+        "per-unit "
         "different weights from the array mixture, through the constraint "
         "object or the layer's variable constraint. unit-perturb replaces one "
         "unit's parameters and then its inputs in a Lattice / PWLCalibration "
@@ -40,7 +49,23 @@ RULE = ("Each Hypothesis case picks one (layer kind, relation). Weight "
         "Batch relations (batch-row for every row, batch-perm, batch-subset; "
         "batches 2-6, units 1-4) run on those five layers and on CDF, cdf_fn, "
         "pwl_calibration_fn (per-example parameters), RTL, "
-        "ParallelCombination and a premade CalibratedLattice. Non-trivial: "
+        "ParallelCombination and a premade CalibratedLattice. "
+        "Lattice / KroneckerFactoredLattice inputs (U, B) come as one tensor, "
+        "as a list of per-dimension tensors, with 1-2 extra leading "
+        "dimensions of size 1-3 (batch, ..., units, dims) or both (label "
+        "*:x-format=*). unit-perturb replaces unit v's inputs either by "
+        "another unit's rows in reverse order or by hostile values (outside "
+        "the lattice range when the layer clips, far outside the keypoints "
+        "or the missing value for PWL, the default bucket for categorical, "
+        "30-100x larger for Linear; label inputs-perturbed:*). Batch "
+        "relations also run on tfl.layers.Aggregation (ragged rows of "
+        "different lengths, list or dict input, bare or calibrated lattice), "
+        "CalibratedLinear and CalibratedLatticeEnsemble (explicit, random, "
+        "rtl_layer; the model descriptions of vlib.models), and for "
+        "permutations / subsets of the cheap layers on batches of 17, 33 and "
+        "64 rows. The options that define these classes are picked by "
+        "hashing drawn integers (uniform; Hypothesis mutates earlier draws). "
+        "Non-trivial: "
         "weight relation - the constraint moved the kernel by > 1e-6*S; "
         "unit-perturb - the perturbation changed the perturbed unit's own "
         "output; batch relation - the batch rows do not all give the same "
@@ -61,8 +86,10 @@ LEVEL_TEXT = ("Generated-input exploration of three families of metamorphic "
               "reshape/transposition slips between units, rows and terms, and "
               "batch-level statistics; cannot show absence.")
 LEVEL_NOTE = ("Bit-identity is expected; 1e-6*S is allowed (S = max(1, "
-              "|weights|, |results|, |bounds|) for weight relations, S = "
-              "max(1, |outputs|, magnitude of the summed terms) for outputs) "
+              "|weights|, |results|) for weight relations, S = "
+              "max(1, |outputs|, magnitude of the summed terms) for outputs; "
+              "after an input perturbation only the outputs of the "
+              "unperturbed units enter S) "
               "because per-column and per-row calls may use different "
               "reduction/matmul blocking; pwl_calibration_fn gets in addition "
               "sum|dy_i|*min(1, 2*(k+2)*eps32*(|range ends|+range)/len_i) over "
@@ -89,8 +116,18 @@ W_KINDS = ["lattice", "lattice", "pwl", "linear", "categorical", "kfl_kernel",
 W_RELS = ["unit-column", "unit-column", "unit-perm", "unit-subset"]
 U_KINDS = ["lattice", "pwl", "pwl", "categorical", "linear", "kfl"]
 B_KINDS = (["lattice", "pwl", "categorical", "linear", "kfl", "cdf", "cdf_fn",
-            "pwl_fn", "rtl", "parcomb"] * 3 + ["premade"] * 2)
+            "pwl_fn", "rtl", "parcomb"] * 3 + ["lattice", "kfl"] +
+           ["premade"] * 2 + ["premade_linear", "premade_linear",
+                              "premade_ensemble", "premade_ensemble",
+                              "aggregation", "aggregation"])
 B_RELS = ["batch-row", "batch-perm", "batch-subset"]
+# input formats of Lattice / KroneckerFactoredLattice (U and B relations):
+# one tensor (batch, [units,] dims); a list of dims tensors (batch, [units,] 1);
+# extra leading dimensions (batch, e1[, e2], [units,] dims); both.
+X_FORMATS = ["tensor", "tensor", "list", "extra", "extra", "list+extra"]
+# kinds whose call is cheap enough for batches beyond the vectorisation width
+BIG_BATCH_KINDS = ("lattice", "pwl", "categorical", "linear", "kfl", "cdf",
+                   "parcomb")
 MISSING = -777.0
 EPS32 = float(np.finfo(np.float32).eps)
 _FN_USES = {}
@@ -98,19 +135,46 @@ _FN_USES = {}
 
 # ---------------------------------------------------------------------------
 # configurations
+def _picker(mix):
+  """Hypothesis repeats and mutates earlier draws, which leaves some options
+  of a small sampled_from list nearly unvisited in a 500-case shard.  The
+  options that define the input classes of this module (input format, input
+  perturbation, parameter shapes, ...) are therefore selected by hashing one
+  drawn integer together with the option's name: uniform and independent,
+  still a pure function of the drawn values (the result is stored in the
+  case)."""
+  return lambda name, options: options[hash32(mix, name) % len(options)]
+
+
 @st.composite
-def _lattice_cfg(draw, tier, group):
+def _lattice_cfg(draw, tier, group, pick):
   big = tier == "thorough"
   # S.lattice_config rarely yields dominances / joint constraints on small
   # lattices; `boost` adds one such constraint (valid by construction).
   boost = draw(st.sampled_from([None, None, None, "mdom", "rdom", "jmono",
-                                "junimod", "unimod"]))
-  sizes = draw(S.lattice_sizes(
-      max_rank=4 if big else 3, max_size=4, max_weights=256 if big else 64,
-      min_rank=2 if boost in ("mdom", "rdom", "jmono") else 1))
+                                "junimod", "junimod", "unimod"]))
+  if not big and group == "W" and draw(st.integers(0, 14)) == 0:
+    sizes = [2, 2, 2, 2]       # small quota of rank 4 in the weight relations
+  else:
+    sizes = draw(S.lattice_sizes(
+        max_rank=4 if big else 3, max_size=4, max_weights=256 if big else 64,
+        min_rank=2 if boost in ("mdom", "rdom", "jmono") else 1))
+  if boost == "junimod" and max(sizes) < 3:
+    sizes[draw(st.integers(0, len(sizes) - 1))] = 3
   lcfg = draw(S.lattice_config(sizes, approx=bool(boost) or
-                               draw(st.booleans())))
+                               draw(st.booleans()),
+                               trusts=boost != "junimod"))
   n = len(sizes)
+  if boost == "junimod" and not lcfg["junimod"]:
+    # construct (do not filter): free one dimension of size >= 3 from the
+    # constraints a jointly unimodal dimension may not carry.
+    d0 = int(np.argmax(sizes))
+    if not any(lcfg["mono"][d] == 0 and sizes[d] >= 3 and
+               lcfg["unimod"][d] == 0 for d in range(n)):
+      lcfg["mono"][d0] = 0
+      lcfg["unimod"][d0] = 0
+      for fam in ("mdom", "rdom"):
+        lcfg[fam] = [p for p in lcfg[fam] if d0 not in p]
   in_junimod = set(d for g in lcfg["junimod"] for d in g[0])
   if boost in ("mdom", "rdom") and not lcfg[boost]:
     free = [d for d in range(n) if lcfg["unimod"][d] == 0 and
@@ -136,11 +200,14 @@ def _lattice_cfg(draw, tier, group):
           "strict": draw(st.sampled_from([True, True, False])),
           "entry": draw(st.sampled_from(["constraint", "constraint", "layer"])),
           "interp": draw(st.sampled_from(["hypercube", "hypercube", "simplex"])),
-          "clip": draw(st.sampled_from([True, True, False]))}
+          "clip": pick("lattice-clip", [True, True, False] if group == "U"
+                       else [True, False]),
+          "xfmt": pick("xfmt", X_FORMATS),
+          "extra": draw(st.lists(st.integers(1, 3), min_size=1, max_size=2))}
 
 
 @st.composite
-def _pwl_cfg(draw, tier, units):
+def _pwl_cfg(draw, tier, units, group="B"):
   p = draw(S.pwl_config(max_k=8 if tier == "quick" else 12,
                         iters=(0, 1, 2, 8)))
   p["units"] = units
@@ -151,12 +218,14 @@ def _pwl_cfg(draw, tier, units):
           "entry": "layer" if p["cyclic"] else draw(st.sampled_from(
               ["constraint", "layer"])),
           "missing": draw(st.sampled_from(["none", "none", "value", "tensor"])),
-          "x_cols": draw(st.sampled_from(["units", "units", "one"])),
+          # a shared input column has no per-unit inputs to perturb
+          "x_cols": draw(st.sampled_from(["units"] * (5 if group == "U" else 2)
+                                         + ["one"])),
           "split": draw(st.sampled_from([False, False, True]))}
 
 
 @st.composite
-def _cat_cfg(draw, tier):
+def _cat_cfg(draw, tier, group, pick):
   n = draw(st.integers(1, 12 if tier == "thorough" else 8))
   pairs = draw(S.dag_pairs(n, max_edges=8)) if n >= 2 else []
   bm = draw(st.sampled_from(["none", "min", "max", "both"]))
@@ -166,8 +235,10 @@ def _cat_cfg(draw, tier):
           "omin": lo if bm in ("min", "both") else None,
           "omax": S.f32(lo + width) if bm in ("max", "both") else None,
           "entry": draw(st.sampled_from(["constraint", "layer"])),
-          "default": draw(st.sampled_from([None, None, -1])),
-          "x_cols": draw(st.sampled_from(["units", "units", "one"])),
+          "default": pick("cat-default", [None, -1, -1]) if group == "U" else
+                     draw(st.sampled_from([None, None, -1])),
+          "x_cols": draw(st.sampled_from(["units"] * (5 if group == "U" else 2)
+                                         + ["one"])),
           "int_input": draw(st.booleans()),
           "split": draw(st.sampled_from([False, False, True]))}
 
@@ -181,7 +252,7 @@ def _linear_cfg(draw, tier, units):
 
 
 @st.composite
-def _kfl_cfg(draw, tier):
+def _kfl_cfg(draw, tier, group, pick):
   size = draw(st.integers(2, 4))
   dims = draw(st.integers(1, 4 if size < 4 else 3))
   mm = draw(st.sampled_from(["none", "all", "some", "some"]))
@@ -193,7 +264,10 @@ def _kfl_cfg(draw, tier):
   return {"size": size, "dims": dims, "terms": draw(st.integers(1, 4)),
           "mono": mono, "omin": lo if bm in ("min", "both") else None,
           "omax": S.f32(lo + width) if bm in ("max", "both") else None,
-          "clip": draw(st.booleans()),
+          "clip": pick("kfl-clip", [True, True, False] if group == "U"
+                       else [True, False]),
+          "xfmt": pick("xfmt", X_FORMATS),
+          "extra": draw(st.lists(st.integers(1, 3), min_size=1, max_size=2)),
           "entry": draw(st.sampled_from(["constraint", "layer"])),
           "scale": draw(S.array_desc(
               kinds=["normal", "ints", "ties", "uniform", "zeros"],
@@ -201,15 +275,16 @@ def _kfl_cfg(draw, tier):
 
 
 @st.composite
-def _cdf_cfg(draw, tier, functional):
-  sf = draw(st.sampled_from([1, 1, 2, 3]))
+def _cdf_cfg(draw, tier, functional, pick):
+  sf = pick("cdf-sparsity", [1, 2, 3])
   cfg = {"sf": sf, "m": draw(st.integers(1, 3)),
          "dim": sf * draw(st.integers(1, 3)), "k": draw(st.integers(1, 6)),
          "activation": draw(st.sampled_from(["relu6", "sigmoid"])),
          "reduction": draw(st.sampled_from(["mean", "geometric_mean", "none"]))}
   if functional:
-    cfg["scaling"] = draw(st.sampled_from(["none", "b_d_1_1", "b_d_k_1",
-                                           "b_d_1_m", "b_d_k_m", "1_d_1_1"]))
+    cfg["scaling"] = pick("cdf-scaling", ["none", "b_d_1_1", "b_d_k_1",
+                                          "b_d_1_m", "b_d_1_m", "b_d_k_m",
+                                          "1_d_1_1"])
     cfg["exp_mult"] = draw(st.sampled_from([None, None, 0.5]))
     cfg["loc_batch"] = draw(st.sampled_from([True, True, True, False]))
   else:
@@ -220,7 +295,7 @@ def _cdf_cfg(draw, tier, functional):
 
 
 @st.composite
-def _pwl_fn_cfg(draw, tier, units):
+def _pwl_fn_cfg(draw, tier, units, pick):
   k = draw(st.integers(2, 6))
   mono = draw(st.sampled_from(["none", "increasing"]))
   cyclic = mono == "none" and draw(st.sampled_from([False, False, True]))
@@ -238,14 +313,14 @@ def _pwl_fn_cfg(draw, tier, units):
           "omin": olo, "omax": olo + draw(st.sampled_from([0.25, 1.0, 50.0])),
           "x_cols": "one" if units == 1 else draw(
               st.sampled_from(["units", "one"])),
-          "pin": draw(st.sampled_from(["bU", "bU", "b1", "1U", "11"] +
-                                      (["b"] if units == 1 else []))),
-          "pout": draw(st.sampled_from(["bU", "bU", "bU", "1U"] +
-                                       (["b"] if units == 1 else [])))}
+          "pin": pick("pwl-fn-pin", ["bU", "bU", "b1", "1U", "11"] +
+                      (["b"] * 4 if units == 1 else [])),
+          "pout": pick("pwl-fn-pout", ["bU", "bU", "bU", "1U"] +
+                       (["b"] * 3 if units == 1 else []))}
 
 
 @st.composite
-def _rtl_cfg(draw, tier):
+def _rtl_cfg(draw, tier, pick):
   fmt = draw(st.sampled_from(["tensor", "dict", "dict"]))
   if fmt == "tensor":
     groups = {"unconstrained": draw(st.integers(1, 5))}
@@ -262,6 +337,9 @@ def _rtl_cfg(draw, tier):
   n_in = sum(v if isinstance(v, int) else sum(v) for v in groups.values())
   rank = draw(st.integers(1, 3))
   min_lat = -(-n_in // rank)
+  # average_outputs is documented as ignored when separate_outputs is set
+  mode = pick("rtl-outputs", ["joint", "joint", "averaged", "averaged",
+                              "separate", "separate", "separate+averaged"])
   return {"format": fmt, "groups": groups, "rank": rank,
           "num": draw(st.integers(min_lat, min_lat + 3)),
           "size": draw(st.sampled_from([2, 2, 3])),
@@ -269,8 +347,8 @@ def _rtl_cfg(draw, tier):
                                          "kronecker_factored"])),
           "interp": draw(st.sampled_from(["hypercube", "simplex"])),
           "terms": draw(st.integers(1, 3)),
-          "separate": draw(st.sampled_from([False, False, True])),
-          "average": draw(st.sampled_from([False, False, True])),
+          "separate": mode.startswith("separate"),
+          "average": mode.endswith("averaged"),
           "rtl_seed": draw(st.integers(0, 1000))}
 
 
@@ -308,14 +386,39 @@ def _premade_cfg(draw, tier):
 
 
 @st.composite
+def _premade_model_cfg(draw, tier, kind, pick):
+  """CalibratedLinear / CalibratedLatticeEnsemble (explicit, random and
+  rtl_layer lattices) descriptions shared with C03 / C11 (vlib.models)."""
+  from vlib import models as M
+  kinds = ["linear"] if kind == "premade_linear" else [pick(
+      "ensemble", ["ensemble_explicit", "ensemble_random", "ensemble_rtl"])]
+  return {"desc": draw(M.model_desc(tier, kinds=kinds))}
+
+
+@st.composite
+def _aggregation_cfg(draw, tier, batch, pick):
+  sizes = draw(S.lattice_sizes(max_rank=3, max_size=3, max_weights=27))
+  return {"sizes": sizes,
+          "lengths": [draw(st.integers(1, 5)) for _ in range(batch)],
+          "dict_input": pick("agg-dict", [False, True]),
+          "calibrated": pick("agg-calibrated", [False, True])}
+
+
+@st.composite
 def _case(draw, tier):
   big = tier == "thorough"
-  group = draw(st.sampled_from(["W", "W", "W", "U", "B", "B", "B"]))
+  # three draws: Hypothesis favours small integers (about 20% of the draws of
+  # one seed are < 256), which alone would repeat the same picks
+  mix = hash32(draw(S.seeds), draw(S.seeds), draw(S.seeds))
+  pick = _picker(mix)
+  group = draw(st.sampled_from(["W", "W", "W", "U", "U", "B", "B", "B"]))
   if group == "W":
     kind = draw(st.sampled_from(W_KINDS))
     rel = draw(st.sampled_from(W_RELS))
     units = draw(st.integers(3 if rel == "unit-subset" else 2,
                              6 if big else 4))
+    if not big and draw(st.integers(0, 14)) == 0:
+      units = 5                 # small quota beyond 4 units in the quick tier
   elif group == "U":
     kind = draw(st.sampled_from(U_KINDS))
     rel = "unit-perturb"
@@ -324,38 +427,48 @@ def _case(draw, tier):
     kind = draw(st.sampled_from(B_KINDS))
     rel = draw(st.sampled_from(B_RELS))
     units = draw(st.sampled_from([1, 2, 3, 4]))
+    if kind == "pwl_fn":       # the 2-D parameter forms need units == 1
+      units = pick("pwl-fn-units", [1, 1, 2, 3, 4])
   batch = draw(st.integers(3 if rel == "batch-subset" else 2,
                            10 if big else 6))
+  if (group == "B" and rel != "batch-row" and kind in BIG_BATCH_KINDS and
+      draw(st.integers(0, 5)) == 0):
+    batch = draw(st.sampled_from([17, 33, 64]))
   base = kind.split("_")[0] if kind.startswith("kfl") else kind
   rows = None
   if base == "lattice":
-    cfg = draw(_lattice_cfg(tier, group))
+    cfg = draw(_lattice_cfg(tier, group, pick))
     rows = int(np.prod(cfg["lcfg"]["sizes"]))
   elif base == "pwl":
-    cfg = draw(_pwl_cfg(tier, units))
+    cfg = draw(_pwl_cfg(tier, units, group))
     rows = len(cfg["pcfg"]["keypoints"]) - (1 if cfg["pcfg"]["cyclic"] else 0)
   elif base == "categorical":
-    cfg = draw(_cat_cfg(tier))
+    cfg = draw(_cat_cfg(tier, group, pick))
     rows = cfg["buckets"]
   elif base == "linear":
     cfg = draw(_linear_cfg(tier, units))
     rows = cfg["dims"]
   elif base == "kfl":
-    cfg = draw(_kfl_cfg(tier))
+    cfg = draw(_kfl_cfg(tier, group, pick))
     rows = cfg["size"] * cfg["dims"] * cfg["terms"]
   elif kind in ("cdf", "cdf_fn"):
-    cfg = draw(_cdf_cfg(tier, kind == "cdf_fn"))
+    cfg = draw(_cdf_cfg(tier, kind == "cdf_fn", pick))
     units = cfg["sf"] * cfg["m"]
   elif kind == "pwl_fn":
-    cfg = draw(_pwl_fn_cfg(tier, units))
+    cfg = draw(_pwl_fn_cfg(tier, units, pick))
   elif kind == "rtl":
-    cfg = draw(_rtl_cfg(tier))
+    cfg = draw(_rtl_cfg(tier, pick))
   elif kind == "parcomb":
     cfg = draw(_parcomb_cfg(tier))
+  elif kind in ("premade_linear", "premade_ensemble"):
+    cfg = draw(_premade_model_cfg(tier, kind, pick))
+  elif kind == "aggregation":
+    cfg = draw(_aggregation_cfg(tier, batch, pick))
   else:
     cfg = draw(_premade_cfg(tier))
   return {"group": group, "kind": kind, "rel": rel, "units": units,
           "batch": batch, "cfg": cfg,
+          "mix": mix, "xpert": pick("xpert", ["swap", "hostile", "hostile"]),
           "kernel": draw(S.array_desc(
               shape=(rows, units) if rows is not None else None)),
           "x": draw(S.array_desc(kinds=["normal", "uniform", "ints", "ties"],
@@ -468,9 +581,34 @@ class Model(object):
     self.call = None        # list of arrays -> list of batch-first arrays
     self.mag = 1.0          # magnitude of the terms summed into an output
     self.perturb = None     # v -> None (replaces unit v's parameters)
-    self.unit_inputs = []   # indices of inputs with a unit axis (axis 1)
+    self.unit_inputs = []   # (index, unit axis) of inputs with a unit axis
+    self.hostile = None     # (index, current unit slice) -> replacement
+                            # values far from the other units' inputs (out of
+                            # range / missing value), or None
+    self.out_shape = None   # expected output shape (default (batch, units))
     self.extra_tol = None   # inputs -> per-output elementwise allowance
     self.labels = []
+
+
+def _lead_shape(cfg, b):
+  """Leading (batch, extra...) dimensions of a Lattice / KFL input."""
+  if "extra" in cfg.get("xfmt", "tensor"):
+    return (b,) + tuple(cfg["extra"])
+  return (b,)
+
+
+def _pack_points(tf, a, cfg):
+  """Canonical (batch, ..., [units,] dims) array -> the drawn input format."""
+  if "list" in cfg.get("xfmt", "tensor"):
+    return [tf.constant(a[..., j:j + 1]) for j in range(a.shape[-1])]
+  return tf.constant(a)
+
+
+def _outside_points(rs, shape, sizes):
+  """Points clearly outside [0, size - 1] in every dimension (clipped layers)."""
+  hi = np.asarray(sizes, np.float64) - 1.0
+  return np.where(rs.rand(*shape) < 0.5, -rs.uniform(0.5, 50, size=shape),
+                  hi + rs.uniform(0.5, 50, size=shape)).astype(np.float32)
 
 
 # ---------------------------------------------------------------------------
@@ -484,22 +622,32 @@ def _b_lattice(case, rs):
   k = S.materialize(case["kernel"], (n, u))
   layer = tfl.layers.Lattice(units=u, interpolation=cfg["interp"],
                              clip_inputs=cfg["clip"], **S.lattice_kwargs(lcfg))
-  layer.build((None, d) if u == 1 else (None, u, d))
-  layer.kernel.assign(k)
+  xfmt = cfg.get("xfmt", "tensor")
+  lead = _lead_shape(cfg, b)
   m = Model()
-  m.inputs = [(_lattice_points(rs, (b,) if u == 1 else (b, u), sizes,
+  m.inputs = [(_lattice_points(rs, lead if u == 1 else lead + (u,), sizes,
                                cfg["clip"]), True)]
-  m.call = lambda a: [_f64(layer(tf.constant(a[0])))]
+  if xfmt == "tensor":
+    layer.build((None, d) if u == 1 else (None, u, d))
+  else:
+    layer(_pack_points(tf, m.inputs[0][0], cfg))      # builds
+  layer.kernel.assign(k)
+  m.call = lambda a: [_f64(layer(_pack_points(tf, a[0], cfg)))]
+  m.out_shape = lead + (u,)
   m.mag = scale_of(k)
+  if cfg["clip"]:
+    m.hostile = lambda i, cur: _outside_points(rs, cur.shape, sizes)
 
   def perturb(v):
     k2 = layer.kernel.numpy()
     k2[:, v] = _new_values(rs, k2[:, v], m.mag)
     layer.kernel.assign(k2)
   m.perturb = perturb
-  m.unit_inputs = [0]
+  m.unit_inputs = [(0, -2)]
   m.labels = ["lattice:" + cfg["interp"], "lattice:clip=%s" % cfg["clip"],
-              "lattice:rank=%d" % d]
+              "lattice:rank=%d" % d, "lattice:x-format=" + xfmt]
+  if xfmt != "tensor" and u > 1:
+    m.labels.append("lattice:x-format=%s,units>1" % xfmt)
   return m
 
 
@@ -560,7 +708,20 @@ def _b_pwl(case, rs):
       mo2[0, v] = _new_values(rs, mo2[0, v:v + 1], m.mag)[0]
       layer.missing_output.assign(mo2)
   m.perturb = perturb
-  m.unit_inputs = list(range(len(m.inputs))) if cols == u and u > 1 else []
+  m.unit_inputs = [(i, 1) for i in range(len(m.inputs))] if (
+      cols == u and u > 1) else []
+
+  def hostile(i, cur):
+    if i == 1:                      # is_missing tensor: flip it
+      return (1.0 - cur).astype(np.float32)
+    span = float(kp[-1] - kp[0])
+    far = np.where(rs.rand(*cur.shape) < 0.5,
+                   kp[0] - span * rs.uniform(1, 50, size=cur.shape),
+                   kp[-1] + span * rs.uniform(1, 50, size=cur.shape))
+    if miss == "value":
+      far = np.where(rs.rand(*cur.shape) < 0.5, MISSING, far)
+    return far.astype(np.float32)
+  m.hostile = hostile
   m.labels = ["pwl:" + cfg["kp_type"], "pwl:missing=" + miss,
               "pwl:x=" + ("per-unit" if cols == u and u > 1 else "shared"),
               "pwl:cyclic" if p["cyclic"] else "pwl:open"]
@@ -602,7 +763,10 @@ def _b_categorical(case, rs):
     k2[:, v] = _new_values(rs, k2[:, v], m.mag)
     layer.kernel.assign(k2)
   m.perturb = perturb
-  m.unit_inputs = [0] if cols == u and u > 1 else []
+  m.unit_inputs = [(0, 1)] if cols == u and u > 1 else []
+  if cfg["default"] is not None:
+    # the missing-value bucket; without one every other input is invalid
+    m.hostile = lambda i, cur: np.full(cur.shape, cfg["default"], cur.dtype)
   m.labels = ["categorical:x=" + ("per-unit" if cols == u and u > 1 else
                                   "shared"),
               "categorical:%s-input" % ("int" if cfg["int_input"] else "float")]
@@ -640,7 +804,13 @@ def _b_linear(case, rs):
       b2[v] = _new_values(rs, b2[v:v + 1], scale_of(k))[0]
       layer.bias.assign(b2)
   m.perturb = perturb
-  m.unit_inputs = [0]
+  m.unit_inputs = [(0, -2)]
+  # far beyond the other units' inputs (and beyond input_min / input_max
+  # where the layer clips); Linear has no documented input domain.
+  xmax = max(1.0, float(np.max(np.abs(x))))
+  m.hostile = lambda i, cur: (rs.choice([-1.0, 1.0], size=cur.shape) * xmax *
+                              rs.uniform(30, 100, size=cur.shape)).astype(
+                                  np.float32)
   m.labels = ["linear:bias" if cfg["use_bias"] else "linear:nobias"]
   return m
 
@@ -656,15 +826,23 @@ def _b_kfl(case, rs):
   if any(cfg["mono"]):
     kw["monotonicities"] = list(cfg["mono"])
   layer = tfl.layers.KroneckerFactoredLattice(**kw)
-  layer.build(tf.TensorShape((None, d) if u == 1 else (None, u, d)))
+  xfmt = cfg.get("xfmt", "tensor")
+  lead = _lead_shape(cfg, b)
+  m = Model()
+  m.inputs = [(_lattice_points(rs, lead if u == 1 else lead + (u,), [size] * d,
+                               cfg["clip"]), True)]
+  if xfmt == "tensor":
+    layer.build(tf.TensorShape((None, d) if u == 1 else (None, u, d)))
+  else:
+    layer(_pack_points(tf, m.inputs[0][0], cfg))      # builds
   layer.kernel.assign(_kfl_to_lib(k2d, cfg))
   layer.scale.assign(sc)
   bias = rs.normal(size=u).astype(np.float32)
   layer.bias.assign(bias)
-  m = Model()
-  m.inputs = [(_lattice_points(rs, (b,) if u == 1 else (b, u), [size] * d,
-                               cfg["clip"]), True)]
-  m.call = lambda a: [_f64(layer(tf.constant(a[0])))]
+  m.call = lambda a: [_f64(layer(_pack_points(tf, a[0], cfg)))]
+  m.out_shape = lead + (u,)
+  if cfg["clip"]:
+    m.hostile = lambda i, cur: _outside_points(rs, cur.shape, [size] * d)
   kmax = np.max(np.abs(k2d.astype(np.float64).reshape(size, d, t, u)), axis=0)
   m.mag = float(np.max(np.mean(np.abs(sc.T.astype(np.float64)) *
                                np.prod(kmax, axis=0), axis=0)) +
@@ -681,8 +859,11 @@ def _b_kfl(case, rs):
     b2[v] += 1.5
     layer.bias.assign(b2)
   m.perturb = perturb
-  m.unit_inputs = [0]
-  m.labels = ["kfl:terms=%d" % t, "kfl:clip=%s" % cfg["clip"]]
+  m.unit_inputs = [(0, -2)]
+  m.labels = ["kfl:terms=%d" % t, "kfl:clip=%s" % cfg["clip"],
+              "kfl:x-format=" + xfmt]
+  if xfmt != "tensor" and u > 1:
+    m.labels.append("kfl:x-format=%s,units>1" % xfmt)
   return m
 
 
@@ -984,7 +1165,119 @@ def _b_premade(case, rs):
   return m
 
 
-BUILDERS = {"lattice": _b_lattice, "pwl": _b_pwl, "categorical": _b_categorical,
+def _stage_bounds(model):
+  """Magnitude of the terms summed into an output of a premade model: every
+  calibration / lattice stage is an interpolation or lookup of one weight
+  tensor (bounded by its absolute sum; KFL by scale * prod of factors + bias),
+  a Linear stage is bounded by sum|w| * (bound of what feeds it) + |bias|."""
+  import tensorflow_lattice as tfl
+  feed, lin, kfl = 1.0, [], False
+  for layer in model.layers:
+    ws = [w.numpy().astype(np.float64) for w in layer.weights]
+    if not ws:
+      continue
+    if isinstance(layer, tfl.layers.Linear):
+      lin.append(sum(float(np.sum(np.abs(w))) for w in ws))
+      continue
+    if isinstance(layer, tfl.layers.KroneckerFactoredLattice) or (
+        isinstance(layer, tfl.layers.RTL) and
+        layer.parameterization == "kronecker_factored"):
+      a = scale_of(*ws)
+      rank = layer.lattice_rank if isinstance(layer, tfl.layers.RTL) else (
+          int(layer.kernel.shape[2]) // layer.units)
+      feed = max(feed, a ** (rank + 1) + a)
+      continue
+    feed = max(feed, max(float(np.sum(np.abs(w))) for w in ws))
+  return max([feed] + [l * feed for l in lin])
+
+
+def _b_premade_model(case, rs):
+  """CalibratedLinear / CalibratedLatticeEnsemble built by vlib.models."""
+  tf, _ = _tfl()
+  import tf_keras as keras
+  from vlib import models as M
+  keras.backend.clear_session()
+  desc, b = case["cfg"]["desc"], case["batch"]
+  model, _ = M.build_model(desc)
+  for w in model.weights:
+    w.assign(w + (rs.normal(size=tuple(w.shape)) * 0.2).astype(np.float32))
+  x = M.base_points(desc, b, case["aux"])
+  for j, f in enumerate(desc["features"]):
+    if f["default"] is not None:      # some rows carry the missing value
+      x[:, j] = np.where(rs.rand(b) < 0.25, f["default"], x[:, j])
+  m = Model()
+  m.inputs = [(a, True) for a in M.model_inputs(desc, x)]
+  m.call = lambda a: [_f64(model([tf.constant(t) for t in a]))]
+  m.mag = _stage_bounds(model)
+  m.labels = ["premade:" + desc["kind"],
+              "premade:features=%d" % len(desc["features"]),
+              "premade:" + desc["parameterization"],
+              "premade:output-calibration" if desc["output_calibration"] else
+              "premade:no-output-calibration"]
+  if any(f["default"] is not None for f in desc["features"]):
+    m.labels.append("premade:missing-values")
+  return m
+
+
+def _b_aggregation(case, rs):
+  """tfl.layers.Aggregation over ragged rows; a row of the batch is one
+  example (its elements), kept here as padded columns plus a length."""
+  tf, tfl = _tfl()
+  import tf_keras as keras
+  keras.backend.clear_session()
+  cfg, b = case["cfg"], case["batch"]
+  sizes, lengths = cfg["sizes"], list(cfg["lengths"])
+  d, width = len(sizes), max(lengths)
+  names = ["f%d" % j for j in range(d)]
+  ins = [keras.Input(shape=(1,), name=nm) for nm in names]
+  cols = ins
+  cal_mag = 1.0
+  if cfg["calibrated"]:
+    cols = []
+    for j, inp in enumerate(ins):
+      cal = tfl.layers.PWLCalibration(
+          input_keypoints=np.linspace(0.0, sizes[j] - 1.0, 3),
+          output_min=0.0, output_max=sizes[j] - 1.0)
+      cols.append(cal(inp))
+  cat = keras.layers.Concatenate(axis=-1)(cols) if d > 1 else cols[0]
+  core = tfl.layers.Lattice(lattice_sizes=sizes, units=1)
+  o = core(cat)
+  model = keras.Model(inputs=dict(zip(names, ins)) if cfg["dict_input"]
+                      else ins, outputs=o)
+  k = S.materialize(case["kernel"], (int(np.prod(sizes)), 1))
+  core.kernel.assign(k)
+  for w in model.weights:
+    if w is not core.kernel:
+      w.assign(w + (rs.normal(size=tuple(w.shape)) * 0.3).astype(np.float32))
+      cal_mag = max(cal_mag, float(np.sum(np.abs(w.numpy()))))
+  agg = tfl.layers.Aggregation(model)
+  m = Model()
+  pts = _lattice_points(rs, (b, width), sizes, True)        # (b, width, d)
+  m.inputs = [(pts[:, :, j].copy(), True) for j in range(d)]
+  m.inputs.append((np.asarray(lengths, np.int64), True))
+
+  def call(a):
+    lens = a[d]
+    ragged = [tf.RaggedTensor.from_row_lengths(
+        tf.constant(np.concatenate([a[j][i, :lens[i]] for i in
+                                    range(len(lens))])), lens)
+              for j in range(d)]
+    return [_f64(agg(dict(zip(names, ragged)) if cfg["dict_input"] else
+                     ragged))]
+  m.call = call
+  m.mag = max(scale_of(k), cal_mag)
+  m.labels = ["aggregation:dict-input" if cfg["dict_input"] else
+              "aggregation:list-input",
+              "aggregation:calibrated" if cfg["calibrated"] else
+              "aggregation:bare-lattice",
+              "aggregation:ragged-different-lengths" if len(set(lengths)) > 1
+              else "aggregation:equal-lengths"]
+  return m
+
+
+BUILDERS = {"premade_linear": _b_premade_model,
+            "premade_ensemble": _b_premade_model,
+            "aggregation": _b_aggregation, "lattice": _b_lattice, "pwl": _b_pwl, "categorical": _b_categorical,
             "linear": _b_linear, "kfl": _b_kfl, "cdf": _b_cdf,
             "cdf_fn": _b_cdf_fn, "pwl_fn": _b_pwl_fn, "rtl": _b_rtl,
             "parcomb": _b_parcomb, "premade": _b_premade}
@@ -1219,7 +1512,9 @@ def _run_weights(case, out, rs):
   else:
     size = rs.randint(2, u)
     subsets = [[int(i) for i in rs.permutation(u)[:size]]]
-  s = scale_of(w, full, *bounds)
+  # the bounds do not enter S: a clipped result is already part of `full`
+  # (1e-3 absolute for output_max = 1000 would make small kernels vacuous)
+  s = scale_of(w, full)
   tol = TOL * s
   worst, bits = 0.0, True
   for idx in subsets:
@@ -1284,36 +1579,51 @@ def _run_units(case, out, rs):
   sig = dict(group="units", layer=kind, rel="unit-perturb")
   y0 = m.call(arrs)[0]
   out.checks += 1
-  if y0.shape != (case["batch"], u):
-    out.violate("output shape %s, expected %s" % (y0.shape,
-                                                  (case["batch"], u)),
+  want = tuple(m.out_shape or (case["batch"], u))
+  if y0.shape != want:
+    out.violate("output shape %s, expected %s" % (y0.shape, want),
                 clause="shape", **sig)
     return
   m.perturb(v)
   y1 = m.call(arrs)[0]
   s = scale_of(y0, y1, m.mag)
   ok, w1 = _compare_outputs(
-      out, [y0[:, others]], [y1[:, others]], s,
+      out, [y0[..., others]], [y1[..., others]], s,
       "%s: replacing the parameters of unit %d changed other units" % (kind, v),
       dict(clause="other-unit-parameters", **sig))
-  changed = _mismatch(y0[:, v], y1[:, v], s) > TOL * s
+  changed = _mismatch(y0[..., v], y1[..., v], s) > TOL * s
   w2 = 0.0
   if ok and m.unit_inputs:
+    hostile = case.get("xpert", "swap") == "hostile" and m.hostile is not None
     arrs2 = [a.copy() for a in arrs]
-    for i in m.unit_inputs:
+    for i, axis in m.unit_inputs:
       a = arrs2[i]
+
+      def at(j, a=a, axis=axis):
+        ix = [slice(None)] * a.ndim
+        ix[axis] = j
+        return tuple(ix)
+      if hostile:
+        # unit v's inputs leave the range the other units' inputs live in
+        # (outside the lattice / keypoint range, the missing value, ...)
+        a[at(v)] = m.hostile(i, a[at(v)])
+        continue
       src = (v + 1) % u
       # unit v receives another unit's inputs, reversed over the batch
-      a[:, v] = a[::-1, src]
-      if np.array_equal(a[:, v], arrs[i][:, v]):
-        a[:, v] = a[::-1, v]
+      a[at(v)] = a[::-1][at(src)]
+      if np.array_equal(a[at(v)], arrs[i][at(v)]):
+        a[at(v)] = a[::-1][at(v)]
     y2 = m.call(arrs2)[0]
-    s = scale_of(s, y2)
+    # unit v's own (possibly far larger) output does not enter the scale
+    s = scale_of(s, y2[..., others])
     ok, w2 = _compare_outputs(
-        out, [y0[:, others]], [y2[:, others]], s,
+        out, [y0[..., others]], [y2[..., others]], s,
         "%s: replacing the inputs of unit %d changed other units" % (kind, v),
         dict(clause="other-unit-inputs", **sig))
-    out.label("inputs-perturbed")
+    out.label("inputs-perturbed",
+              "inputs-perturbed:" + ("hostile" if hostile else "swapped"),
+              "inputs-perturbed:%s:%s" % (kind, "hostile" if hostile else
+                                          "swapped"))
   out.info["worst_mismatch_over_S"] = max(w1, w2) / s
   out.label("bit-identical" if max(w1, w2) == 0.0 else "rounding-differences")
   out.nontrivial = bool(changed)
